@@ -866,6 +866,19 @@ func (w *DispatchWorld) Publish(routeIdx int, extraHeader bool, variant ...strin
 			// a header name as an operator's publish may store it: not canonical
 			hdr["x-tenant-token"] = "tenant-of-" + tok
 		}
+		if len(variant) > 0 && variant[0] == "orphan" {
+			// a message for a target the route no longer has (left behind by a
+			// configuration change): the dispatcher keeps putting it back with a
+			// short delay; it is nobody's delivery and takes no part in the rules
+			// about deliveries - but it shares micro-batches with messages that do
+			if i > 0 {
+				break
+			}
+			err := w.Node.Store.Enqueue(queue.Envelope{Route: r.Path, Target: "https://gone.example/orphan", Payload: []byte("orphan-" + tok), Headers: hdr})
+			w.Res.logf("publish orphan %s -> %s (target not configured): %s", tok, r.Path, errShort(err))
+			w.Res.probe("dispatch.orphan_published")
+			break
+		}
 		dm := &dmsg{token: tok, route: r, target: &r.Deliver[i]}
 		w.pub = append(w.pub, dm)
 		err := w.Node.Store.Enqueue(queue.Envelope{Route: r.Path, Target: r.Deliver[i].URL, Payload: []byte(tok), Headers: hdr})
@@ -876,6 +889,21 @@ func (w *DispatchWorld) Publish(routeIdx int, extraHeader bool, variant ...strin
 		}
 	}
 	w.sync("publish")
+}
+
+// orphan: a message whose target its route does not have.
+func (w *DispatchWorld) orphan(x *Msg) bool {
+	for i := range w.Spec.Routes {
+		if w.Spec.Routes[i].Path != x.Route {
+			continue
+		}
+		for _, d := range w.Spec.Routes[i].Deliver {
+			if d.URL == x.Target {
+				return false
+			}
+		}
+	}
+	return true
 }
 
 // Tick lets one dispatcher worker run one cycle (dequeue, deliver, settle).
@@ -910,8 +938,14 @@ func (w *DispatchWorld) Drain() {
 	for _, dm := range w.pub {
 		budget += 3 * (w.retryFor(dm.target).Max + 2)
 	}
-	if budget > 6000 {
-		budget = 6000
+	for _, x := range w.Model.Msgs {
+		if w.orphan(x) {
+			budget *= 3 // an orphan is due again every second and takes a turn in most rounds
+			break
+		}
+	}
+	if budget > 20000 {
+		budget = 20000
 	}
 	for round := 0; round < budget; round++ {
 		progress := false
@@ -930,7 +964,7 @@ func (w *DispatchWorld) Drain() {
 		// nothing ready: jump to the earliest instant at which something becomes due
 		var next time.Time
 		for _, x := range w.Model.Msgs {
-			if x.State == queue.StateQueued || x.State == queue.StateLeased {
+			if (x.State == queue.StateQueued || x.State == queue.StateLeased) && !w.orphan(x) {
 				if next.IsZero() || x.NextRunAt.Before(next) {
 					next = x.NextRunAt
 				}
@@ -948,7 +982,7 @@ func (w *DispatchWorld) Drain() {
 		w.Res.logf("drain: advance %s", d)
 	}
 	for _, x := range w.Model.Msgs {
-		if x.State == queue.StateQueued || x.State == queue.StateLeased {
+		if (x.State == queue.StateQueued || x.State == queue.StateLeased) && !w.orphan(x) {
 			w.add("C06.liveness", "C06,C05", "dispatch/drain", "message %s is still %s (attempt %d) after %d dispatcher rounds with faults off", x.ID, x.State, x.Attempt, budget)
 			return
 		}
